@@ -82,6 +82,11 @@ class Gen:
         self.multiline = multiline
         self.in_async = False
         self.in_gen = False
+        self.in_derived = False           # inside a method of a class with a heritage: super.m(..) is legal
+        self.has_priv = False             # inside a class that declares #pv
+        self.fn_depth = 0                 # > 0 inside a function body: `return` is legal
+        self.nvar = 0                     # declared names are unique per program
+        self.nlbl = 0
         self.nlit = 0
 
     # ---------------------------------------------------------------- leaves
@@ -96,15 +101,22 @@ class Gen:
                 body = body[:-2] + "é" if len(body) > 3 else body
             q = r.choice(["'", '"'])
             return q + body + q
+        if r.random() < 0.12:
+            return r.choice(["'\\u00e9\\x41\\n'", "'it\\'s'", '"q\\"q"', "'\u00e9\u4e2d'", "'\\\\'", "'\\0'", "'</script>'",
+                             "'\u2028'", "'$" "{a}'", "'`'", "'\\u{1F600}'", "'\U0001F600'"])
         return r.choice(["'x'", '"y"', "'long literal value'", "''", "'a b'"])
 
     def lit(self):
         r = self.r
+        if r.random() < 0.1:
+            return r.choice(["0x1F", "1_000", "1e3", ".5", "0b11", "0o7", "5n", "/a\\/b[/]/giu", "/(?<n>x)\\k<n>/s", "false", "-0"])
         return r.choice([self.strlit(), self.strlit(), "1", "0", "2.5", "true", "null", "/re/g", "10n"])
 
     def ident(self):
         if self.reserved and self.r.random() < 0.08:
             return self.reserved
+        if self.r.random() < 0.01:
+            return self.r.choice(["\\u0061", "\\u{62}"])      # a / b spelled with an escape
         return self.r.choice(IDENTS)
 
     def leaf(self):
@@ -195,8 +207,20 @@ class Gen:
             return "%s[%s](%s)" % (self.ident(), self.prim(d + 1), self.args(d))
         if x < 0.84:
             return "%s.%s.call(%s)" % (self.ident(), self.method_name(), self.args(d, allow_spread=False) or self.ident())
-        if x < 0.92:
+        if x < 0.88:
             return "%s(%s)" % (r.choice(FUNCS), self.args(d))
+        if x < 0.91:
+            # callee paths that are not static: computed link, call result, parenthesis
+            path = r.choice(["o[%s]" % self.prim(d + 1), "%s()" % r.choice(FUNCS), "(%s)" % self.expr(d + 1), "o[%s].x" % self.ident()])
+            if r.random() < 0.5:
+                return "%s.%s.call(%s)" % (path, self.method_name(), self.args(d, allow_spread=False) or self.ident())
+            return "%s.%s.apply(%s, [%s])" % (path, self.method_name(), self.prim(d + 1), self.args(d))
+        if x < 0.93 and self.in_derived:
+            return "super.m%d(%s)" % (r.randint(1, 3), self.args(d))
+        if x < 0.95:
+            return "import(%s)" % self.assign_expr(d + 1)
+        if x < 0.97:
+            return "o.tag`x${%s}y`" % self.expr(d + 1)
         return "new K(%s)" % self.args(d)
 
     def optchain(self, d):
@@ -226,7 +250,7 @@ class Gen:
         n = r.choice([1, 1, 2, 3])
         s = "`"
         for i in range(n):
-            s += r.choice(["", "x", " y "])
+            s += r.choice(["", "x", " y ", "", "x", " y ", "\\n", "\u00e9", "$", "\\${", "\\`", "{}", "\\u00e9\\x41"])
             if r.random() < 0.12:
                 s += "${" + self.lit() + "}"
             else:
@@ -251,33 +275,47 @@ class Gen:
             return self.template(d)
         if x < 0.8:
             return "(" + self.expr(d + 1) + ")"
-        if x < 0.84:
+        if x < 0.83:
             return "[" + self.args(d) + "]"
+        if x < 0.84:
+            return r.choice(["[...%s, %s]" % (self.prim(d + 1), self.assign_expr(d + 1)), "({ ...%s, k: %s })" % (self.prim(d + 1), self.assign_expr(d + 1)),
+                             "void %s" % self.prim(d + 1), "[, %s, , ]" % self.assign_expr(d + 1)])
         if x < 0.88:
-            k = r.choice(["k", "'long literal key'", "[" + self.prim(d + 1) + "]"])
+            k = r.choice(["k", "'long literal key'", "[" + self.prim(d + 1) + "]", "1", "'quoted key'"])
             return "({ %s: %s, %s })" % (k, self.assign_expr(d + 1), r.choice([
-                "b", "m() { %sreturn %s }" % (self.directives(), self.expr(d + 1)), "...o",
-                "get g() { %sreturn %s }" % (self.directives(), self.expr(d + 1)),
-                "set g(x) { %s%s }" % (self.directives(), self.expr(d + 1))]))
+                "b", "m() { %s }" % self.fbody(d, "", 0, ret=True), "...o",
+                "get g() { %s }" % self.fbody(d, "", 0, ret=True),
+                "async am() { %s }" % self.fbody(d, "", 0, is_async=True, ret=True), "*gm() { %s }" % self.fbody(d, "", 0, is_gen=True, ret=True),
+                "['c' + %s]() { %s }" % (self.ident(), self.fbody(d, "", 0, directives=False, ret=True)),
+                "set g(x) { %s }" % self.fbody(d, "x", 1)]))
         if x < 0.92:
             return self.arrow(d)
         if x < 0.95:
-            return "function (%s) { %s%s }" % (self.params(d), self.directives(), self.stmts(d + 1, 2))
+            ps = self.fparams(d)
+            return "function (%s) { %s }" % (ps, self.fbody(d, ps, 2, derived=False))
         if x < 0.975 and self.in_async:
             return "(await %s)" % self.prim(d + 1)
         if x < 0.99 and self.in_gen:
-            return "(yield %s)" % self.prim(d + 1)
+            return "(yield%s %s)" % (r.choice(["", "", "*"]), self.prim(d + 1))
         return self.leaf()
 
     def arrow(self, d):
         r = self.r
-        ps = r.choice(["", "x", "x, y", "x = %s" % self.expr(d + 1), "{x}", "...r"])
-        if r.random() < 0.6:
-            body = self.assign_expr(d + 1)
-            if body.lstrip().startswith("{"):
-                body = "(" + body + ")"
-            return "((%s) => %s)" % (ps, body)
-        return "((%s) => { %s%s })" % (ps, self.directives() if "=" not in ps and "{" not in ps and "..." not in ps else "", self.stmts(d + 1, 2))
+        sa, sg = self.in_async, self.in_gen
+        is_async = r.random() < 0.15
+        self.in_async = self.in_gen = False
+        ps = r.choice(["", "x", "x, y", "x = %s" % self.expr(d + 1), "{x}", "...r", "{x = %s}" % self.prim(d + 1), "[x, y = %s]" % self.prim(d + 1)])
+        kw = "async " if is_async else ""
+        try:
+            if r.random() < 0.6:
+                self.in_async = is_async
+                body = self.assign_expr(d + 1)
+                if body.lstrip().startswith("{"):
+                    body = "(" + body + ")"
+                return "(%s(%s) => %s)" % (kw, ps, body)
+            return "(%s(%s) => { %s })" % (kw, ps, self.fbody(d, ps, 2, is_async=is_async))
+        finally:
+            self.in_async, self.in_gen = sa, sg
 
     def unary(self, d):
         r = self.r
@@ -300,16 +338,24 @@ class Gen:
         r = self.r
         if d >= self.max_depth or r.random() < 0.45:
             return self.unary(d)
-        op = r.choice(["+", "+", "+", "+", "*", "-", "==", "===", "<", "&&", "||", "??", "in", "instanceof", "%"])
+        op = r.choice(["+", "+", "+", "+", "+", "*", "-", "==", "===", "<", "&&", "||", "??", "in", "instanceof", "%",
+                       "**", ">>>", "&", "|", "^", "<<", "!=", "!==", ">=", "/"])
         l = self.binary(d + 1)
         rr = self.binary(d + 1)
-        if op == "??" or ("??" in l + rr and op in ("&&", "||")):
+        if op in ("??", "&&", "||") and any(t in l + rr for t in ("??", "&&", "||")):
+            l, rr = "(" + l + ")", "(" + rr + ")"
+        elif "??" in l + rr:
+            # a tighter operator next to an unparenthesised ?? would regroup it with && / || further out
             l, rr = "(" + l + ")", "(" + rr + ")"
         if op in ("in", "instanceof"):
             rr = r.choice(["o", "K"])
         if l.startswith("-") or l.startswith("!") or l.startswith("typeof") or l.startswith("delete") or l.startswith("+"):
             l = "(" + l + ")"
         if rr.startswith("-") or rr.startswith("+"):
+            rr = "(" + rr + ")"
+        if op == "**":
+            l, rr = "(" + l + ")", "(" + rr + ")"
+        if op == "/" and rr.startswith("/"):
             rr = "(" + rr + ")"
         return l + self.sep() + op + self.sep() + rr
 
@@ -337,7 +383,9 @@ class Gen:
     def assign_expr(self, d):
         r = self.r
         if d < self.max_depth and r.random() < 0.15:
-            op = r.choice(["+=", "+=", "+=", "=", "-=", "||=", "??="])
+            if r.random() < 0.08:
+                return r.choice(["[a, b] = [b, %s]" % self.assign_expr(d + 1), "({ x: a, y: b = %s } = o)" % self.prim(d + 1)])
+            op = r.choice(["+=", "+=", "+=", "=", "-=", "||=", "??=", "&&=", "**=", "*="])
             return "%s %s %s" % (self.target(d), op, self.assign_expr(d + 1))
         return self.cond(d)
 
@@ -351,15 +399,62 @@ class Gen:
     def params(self, d):
         r = self.r
         return r.choice(["", "x", "x, y", "x, y = %s" % self.expr(d + 1), "{x, y}", "x, ...rest",
-                         "x = %s" % self.prim(d + 1)])
+                         "x = %s" % self.prim(d + 1), "{x = %s, ...r3}" % self.prim(d + 1), "[x, , y = %s]" % self.prim(d + 1)])
 
-    def directives(self):
+    def directives(self, params=""):
         r = self.r
         x = r.random()
         if x < 0.7:
             return ""
+        simple = not any(c in params for c in "={[.")
+        if not simple:
+            # 'use strict' is illegal in a function with a non-simple parameter list
+            return r.choice(["'other';", "'use asm';", "('use strict');", "'a'; 'b';"]) + " "
         return r.choice(["'use strict';", '"use strict";', "'use strict'\n", "'other'; 'use strict';",
                          "'use strict'; 'other';", "'use asm';", "('use strict');", "'a'; 'b'; \"use strict\";"]) + " "
+
+    def expr_stmt(self, d):
+        ex = self.expr(d)
+        if ex.lstrip().startswith(("{", "function", "class", "async function", "let[", "let [")):
+            ex = "(" + ex + ")"
+        return ex
+
+    def sub_stmt(self, d):
+        """a statement for a single-statement position (no declarations there)"""
+        for _ in range(6):
+            st = self.stmt(d)
+            if not st.lstrip().startswith(("class ", "function", "async function", "let ", "const ", "lb", "/*", "//")):
+                return st
+        return self.expr_stmt(d) + ";"
+
+    def fparams(self, d):
+        """a parameter list: await / yield / super are not legal in it"""
+        sv = (self.in_async, self.in_gen)
+        self.in_async = self.in_gen = False
+        try:
+            return self.params(d)
+        finally:
+            self.in_async, self.in_gen = sv
+
+    def fbody(self, d, ps, n, is_async=False, is_gen=False, derived=None, directives=True, ret=None):
+        """a function body: `return` legal, await / yield legal as the kind says; ret: an expression generator for a final return"""
+        sv = (self.in_async, self.in_gen, self.in_derived)
+        self.in_async, self.in_gen = is_async, is_gen
+        if derived is not None:
+            self.in_derived = derived
+        self.fn_depth += 1
+        try:
+            out = (self.directives(ps) if directives else "") + (self.stmts(d + 1, n) if n else "")
+            if ret:
+                out += "return %s" % self.expr(d + 1)
+            return out
+        finally:
+            self.fn_depth -= 1
+            self.in_async, self.in_gen, self.in_derived = sv
+
+    def var(self):
+        self.nvar += 1
+        return "v%d" % self.nvar
 
     def stmt(self, d):
         r = self.r
@@ -369,25 +464,22 @@ class Gen:
         e = lambda: self.expr(d + 1)  # noqa
         body = lambda: self.stmts(d + 1, r.choice([1, 1, 2]))  # noqa
         if x < 0.22:
-            ex = e()
-            if ex.lstrip().startswith(("{", "function", "class", "let[", "`")) and False:
-                ex = "(" + ex + ")"
-            if ex.lstrip().startswith(("{", "function", "class")):
-                ex = "(" + ex + ")"
-            return ex + ";"
+            return self.expr_stmt(d + 1) + ";"
         if x < 0.34:
             kind = r.choice(["const", "let", "var"])
-            return "%s %s = %s;" % (kind, r.choice(["v1", "v2", "w", "{q}", "[q1, q2]"]), self.assign_expr(d + 1))
+            v = self.var
+            return "%s %s = %s;" % (kind, r.choice([v(), v(), v(), "{%s}" % v(), "[%s, %s]" % (v(), v()), "{%s = %s, ...%s}" % (v(), self.prim(d + 1), v()),
+                                                    "[%s = %s, , %s]" % (v(), self.prim(d + 1), v()), "{k: {%s}}" % v()]), self.assign_expr(d + 1))
         if x < 0.40:
-            return "return %s;" % e()
+            return ("return %s;" % e()) if self.fn_depth > 0 else self.expr_stmt(d + 1) + ";"
         if x < 0.46:
-            return "if (%s) { %s }%s" % (e(), body(), r.choice(["", " else { %s }" % body(), " else %s" % self.stmt(d + 1)]))
+            return "if (%s) { %s }%s" % (e(), body(), r.choice(["", " else { %s }" % body(), " else %s" % self.sub_stmt(d + 1)]))
         if x < 0.50:
-            return "if (%s) %s%s" % (e(), self.stmt(d + 1), r.choice(["", " else %s" % self.stmt(d + 1)]))
+            return "if (%s) %s%s" % (e(), self.sub_stmt(d + 1), r.choice(["", " else %s" % self.sub_stmt(d + 1)]))
         if x < 0.54:
             return "for (let i = %s; i < %s; i += %s) { %s }" % (self.prim(d + 1), self.prim(d + 1), self.prim(d + 1), body())
         if x < 0.57:
-            return "for (const k %s %s) %s" % (r.choice(["of", "in"]), e(), r.choice(["{ %s }" % body(), self.stmt(d + 1)]))
+            return "for (const k %s %s) %s" % (r.choice(["of", "in"]), self.assign_expr(d + 1), r.choice(["{ %s }" % body(), self.sub_stmt(d + 1)]))
         if x < 0.60:
             return "while (%s) { %s break; }" % (e(), body())
         if x < 0.62:
@@ -395,12 +487,22 @@ class Gen:
         if x < 0.66:
             return "switch (%s) { case %s: %s break; default: %s }" % (e(), self.prim(d + 1), body(), body())
         if x < 0.70:
-            return "try { %s } catch (%s) { %s }%s" % (body(), r.choice(["e", "{message}"]), body(),
-                                                      r.choice(["", " finally { %s }" % body()]))
+            return "try { %s } catch%s { %s }%s" % (body(), r.choice([" (e)", " ({message})", ""]), body(),
+                                                    r.choice(["", " finally { %s }" % body()]))
         if x < 0.72:
             return "throw %s;" % e()
+        if x < 0.73:
+            self.nlbl += 1
+            lb = self.nlbl
+            return "lbl%d: { %s }" % (lb, body())
         if x < 0.74:
-            return "lbl: { %s }" % body()
+            self.nlbl += 1
+            lb = self.nlbl
+            return r.choice(["lb%d: for (const k of %s) { %s continue lb%d; }" % (lb, self.assign_expr(d + 1), body(), lb), "debugger;",
+                             "return;" if self.fn_depth > 0 else ";",
+                             "if (%s) x(); else if (%s) y(); else { %s }" % (e(), e(), body()),
+                             "switch (%s) { case 1: case %s: %s default: %s break; case 3: }" % (e(), self.prim(d + 1), body(), body()),
+                             ("for await (const k of %s) { %s }" % (self.assign_expr(d + 1), body())) if self.in_async else "for (;;) { %s break; }" % body()])
         if x < 0.80:
             return self.function_decl(d)
         if x < 0.84:
@@ -409,40 +511,57 @@ class Gen:
             return "{ %s }" % body()
         if x < 0.89:
             return ";"
-        return self.expr(d + 1) + ";"
+        return self.expr_stmt(d + 1) + ";"
 
     def function_decl(self, d):
         r = self.r
         kind = r.choice(["function", "function", "async function", "function*", "async function*"])
-        sa, sg = self.in_async, self.in_gen
-        self.in_async = "async" in kind
-        self.in_gen = "*" in kind
-        s = "%s %s(%s) { %s%s }" % (kind, r.choice(["fn1", "fn2", "fn3"]), self.params(d), self.directives(),
-                                    self.stmts(d + 1, r.choice([1, 2, 3])))
-        self.in_async, self.in_gen = sa, sg
-        return s
+        ps = self.fparams(d)
+        self.nvar += 1
+        return "%s fn%d(%s) { %s }" % (kind, self.nvar, ps, self.fbody(d, ps, r.choice([1, 2, 3]), is_async="async" in kind,
+                                                                      is_gen="*" in kind, derived=False))
 
     def class_decl(self, d):
         r = self.r
-        sa, sg = self.in_async, self.in_gen
+        sa, sg, sd = self.in_async, self.in_gen, self.in_derived
         self.in_async = self.in_gen = False
+        heritage = r.choice(["", "", "extends K ", "extends K ", "extends f(%s) " % self.prim(d + 1)])
+        self.in_derived = bool(heritage)
         members = []
         for _ in range(r.choice([1, 2, 3])):
             x = r.random()
-            if x < 0.3:
-                members.append("m%d(%s) { %s%s }" % (r.randint(1, 3), self.params(d), self.directives(), self.stmts(d + 1, 2)))
+            if x < 0.06 and not any(m.startswith("#pv") for m in members):
+                members.append("#pv = %s; getPv() { return this.#pv + %s; }" % (self.assign_expr(d + 1), self.prim(d + 1)))
+            elif x < 0.12:
+                ps = self.fparams(d)
+                members.append("%sasync am%d(%s) { %s }" % (r.choice(["", "static "]), r.randint(1, 3), ps, self.fbody(d, ps, 2, is_async=True)))
+            elif x < 0.16:
+                members.append("*gm%d() { %s }" % (r.randint(1, 3), self.fbody(d, "", 2, is_gen=True)))
+            elif x < 0.3:
+                ps = self.fparams(d)
+                members.append("m%d(%s) { %s }" % (r.randint(1, 3), ps, self.fbody(d, ps, 2)))
             elif x < 0.45:
                 members.append("static s%d = %s;" % (r.randint(1, 3), self.assign_expr(d + 1)))
             elif x < 0.6:
                 members.append("f%d = %s;" % (r.randint(1, 3), self.assign_expr(d + 1)))
             elif x < 0.7:
+                sv = (self.fn_depth, self.in_async, self.in_gen)
+                self.fn_depth, self.in_async, self.in_gen = 0, False, False       # no return / await / yield in a static block
                 members.append("static { %s }" % self.stmts(d + 1, 2))
+                self.fn_depth, self.in_async, self.in_gen = sv
             elif x < 0.8:
-                members.append("get g%d() { %s%s }" % (r.randint(1, 3), self.directives(), self.stmts(d + 1, 1)))
+                members.append("get g%d() { %s }" % (r.randint(1, 3), self.fbody(d, "", 1)))
             elif x < 0.9:
-                members.append("[%s]() { %s }" % (self.prim(d + 1), self.stmts(d + 1, 1)))
+                self.in_derived = False           # a computed key is evaluated outside the class body
+                key = self.prim(d + 1)
+                self.in_derived = bool(heritage)
+                members.append("[%s]() { %s }" % (key, self.fbody(d, "", 1, directives=False)))
+            elif heritage:
+                ps = self.fparams(d)
+                members.append("constructor(%s) { super(%s); %s }" % (ps, self.args(d), self.fbody(d, ps, 2, directives=False)))
             else:
-                members.append("constructor(%s) { %s%s }" % (self.params(d), self.directives(), self.stmts(d + 1, 2)))
+                ps = self.fparams(d)
+                members.append("constructor(%s) { %s }" % (ps, self.fbody(d, ps, 2)))
         # at most one constructor
         seen = False
         out = []
@@ -452,22 +571,34 @@ class Gen:
                     continue
                 seen = True
             out.append(m)
-        self.in_async, self.in_gen = sa, sg
-        return "class C%d %s{ %s }" % (r.randint(1, 3), r.choice(["", "", "extends K "]), " ".join(out))
+        self.in_async, self.in_gen, self.in_derived = sa, sg, sd
+        return "class C%d %s{ %s }" % (r.randint(1, 3), heritage, " ".join(out))
+
+    def comment(self):
+        r = self.r
+        if r.random() < 0.85:
+            return ""
+        return r.choice(["/* c */ ", "// line comment\n", "/** @type {string} */ ", "/* multi\n   line */ ", "/*! keep */ ",
+                         "// \u00e9\u4e2d\n", "/* //# sourceMappingURL=not-a-reference */ "])
 
     def stmts(self, d, n):
         nl = "\n" if self.multiline else " "
-        return nl.join(self.stmt(d) for _ in range(n))
+        return nl.join(self.comment() + self.stmt(d) for _ in range(n))
 
     def program(self):
         r = self.r
         kind = r.random()
-        body = self.directives() + self.stmts(0, r.choice([1, 2, 3, 4, 6]))
+        wrap = kind > 0.5
+        ps = ""
+        if wrap:
+            self.fn_depth = 1
+            ps = self.params(0)
+        body = self.directives(ps) + self.stmts(0, r.choice([1, 2, 3, 4, 6]))
         if kind < 0.15:
             body = "import z from 'm';\n" + body + "\nexport default z;"
-        if kind > 0.5:
+        if wrap:
             # wrap most programs in a function: operations outside any block are out of scope for C04
-            body = "function main(%s) { %s%s }" % (self.params(0), self.directives(), body)
+            body = "function main(%s) { %s%s }" % (ps, self.directives(ps), body)
         return body
 
 
